@@ -157,7 +157,7 @@ PROFILES.update({
              "kcall_deaths": 0.6, "hooks": ["after_spawn", "before_stop", "after_stop"], "norespawn": True},
     "term": {"max_age": 0.3, "killover": 0.6, "Gs": [0.0, 0.2, 0.3, 0.5, 0.8], "stop_children": True, "stop_signal": True, "fork": 0.15, "stubborn": 0.5,
              "cmds": ["stop", "kill", "decr", "restart", "reload", "signal"], "instant": 0.2},
-    "acct": {"watchers": 3, "badnb": 0.05, "hooks": ["before_spawn", "after_spawn", "before_start", "after_start"], "faults": 0.3,
+    "acct": {"watchers": 3, "badnb": 0.05, "hooks": ["before_spawn", "after_spawn", "before_start", "after_start", "before_reap", "after_reap"], "faults": 0.3,
              "kcall_deaths": 0.6, "die_untracked": 0.3,
              "cmds": ["start", "stop", "incr", "decr", "kill", "restart", "list", "numprocesses", "rm"],
              "norespawn": True},
